@@ -590,9 +590,9 @@ Proof.
 Qed.
 
 (* ------------------------------------------------------------------ the gateway *)
-Lemma filters_pass_hc h id authz hc id1 : filters h id authz = Pass hc id1 -> hc = clear_imp (h_del H_AUTH h).
+Lemma filters_pass_hc h id authz hc id1 : filters_core h id authz = Pass hc id1 -> hc = clear_imp (h_del H_AUTH h).
 Proof.
-  rewrite filters_spec. destruct (is_upgrade_request h); [discriminate|]. destruct (asks h).
+  rewrite filters_core_spec. destruct (asks h).
   - destruct (forallb authz (asked_items h)); [|discriminate]. intros H. inversion H. reflexivity.
   - destruct (malformed h); [discriminate|]. intros H. inversion H. reflexivity.
 Qed.
@@ -600,21 +600,25 @@ Qed.
 Lemma relayed_inv token ip c q id authz reply up r :
   gateway token ip c q id authz reply = Relayed up r ->
   exists id1 uri,
-    c = COk /\ filters (q_headers q) id authz = Pass (clear_imp (h_del H_AUTH (q_headers q))) id1 /\
+    c = COk /\ is_upgrade_request (q_headers q) = false /\
+    filters_core (q_headers q) id authz = Pass (clear_imp (h_del H_AUTH (q_headers q))) id1 /\
     rebuild_target (q_target q) = Some uri /\
     up = mkUp (q_method q) uri (q_host q)
               (transport_headers (q_method q) (last_hop token ip id1 (clear_imp (h_del H_AUTH (q_headers q))))) (q_body q) /\
     r = relay_response (q_method q) reply.
 Proof.
   unfold gateway, term. destruct c; try discriminate;
-    destruct (filters (q_headers q) id authz) as [h1 id1|code|] eqn:F; try discriminate;
+    destruct (filters_core (q_headers q) id authz) as [h1 id1|code|] eqn:F; try discriminate;
     try (destruct (Z.eqb code 403); discriminate).
   pose proof (filters_pass_hc _ _ _ _ _ F) as Hh. subst h1.
+  destruct (is_upgrade_request (q_headers q)) eqn:U.
+  { destruct (upgrade_target (q_target q)); [|discriminate].
+    destruct (upgrade_send ip id1 (clear_imp (h_del H_AUTH (q_headers q)))); discriminate. }
   destruct (rebuild_target (q_target q)) as [uri|]; [|discriminate].
   destruct (send token ip id1 (clear_imp (h_del H_AUTH (q_headers q)))) as [h2|code|] eqn:S; try discriminate.
   intros H. inversion H; subst up r; clear H.
   rewrite (send_explicit _ _ _ _ _ (clean_clear (q_headers q)) S).
-  exists id1, uri. auto.
+  exists id1, uri. repeat split; auto.
 Qed.
 
 Theorem method_body_preserved token ip c q id authz reply up r :
@@ -622,7 +626,7 @@ Theorem method_body_preserved token ip c q id authz reply up r :
   p_method up = q_method q /\ p_body up = q_body q /\ p_host up = q_host q /\
   rebuild_target (q_target q) = Some (p_uri up).
 Proof.
-  intros H. destruct (relayed_inv _ _ _ _ _ _ _ _ _ H) as [id1 [uri [_ [_ [Hu [-> _]]]]]]. cbn. auto.
+  intros H. destruct (relayed_inv _ _ _ _ _ _ _ _ _ H) as [id1 [uri [_ [_ [_ [Hu [-> _]]]]]]]. cbn. auto.
 Qed.
 
 Lemma transport_in method h2 e : In e (transport_headers method h2) -> In e h2 \/ gateway_owned (fst e) = true.
@@ -671,7 +675,7 @@ Theorem headers_end_to_end token ip c q id authz reply up r :
   h_values "X-Forwarded-For" (p_headers up) =
     [trim_ows (match own (q_headers q) "X-Forwarded-For" with [] => ip | p => join ", " p +++ ", " +++ ip end)].
 Proof.
-  intros H Hs. destruct (relayed_inv _ _ _ _ _ _ _ _ _ H) as [id1 [uri [_ [_ [_ [-> _]]]]]]. cbn [p_headers].
+  intros H Hs. destruct (relayed_inv _ _ _ _ _ _ _ _ _ H) as [id1 [uri [_ [_ [_ [_ [-> _]]]]]]]. cbn [p_headers].
   set (h := q_headers q) in *. split; [|split].
   - intros k Hk. pose proof (e2e_key_facts h k Hk) as F.
     rewrite transport_values by (apply F). apply last_hop_values; assumption.
@@ -720,7 +724,7 @@ Theorem response_relayed token ip c q id authz reply up r :
      In e (read_headers (r_headers reply)) /\ str_in (fst e) hop_headers = false /\
      str_in (fst e) (connection_named (read_headers (r_headers reply))) = false).
 Proof.
-  intros H. destruct (relayed_inv _ _ _ _ _ _ _ _ _ H) as [id1 [uri [_ [_ [_ [_ ->]]]]]].
+  intros H. destruct (relayed_inv _ _ _ _ _ _ _ _ _ H) as [id1 [uri [_ [_ [_ [_ [_ ->]]]]]]].
   unfold relay_response, relay_headers. cbn [r_status r_body r_headers].
   split; [reflexivity|]. split; [reflexivity|]. split.
   - intros k Hk. rewrite !hv_del_all. unfold resp_key in Hk. apply Bool.negb_true_iff in Hk.
@@ -729,14 +733,14 @@ Proof.
   - intros e He. apply in_del_all' in He. destruct He as [He Hhop]. apply in_del_all' in He. destruct He as [He Hn]. auto.
 Qed.
 
-Definition forwarded (x : result) : bool := match x with Relayed _ _ => true | _ => false end.
+Definition forwarded (x : result) : bool := match x with Relayed _ _ | Upgraded _ => true | _ => false end.
 
 Theorem terminated_not_forwarded token ip c q id authz reply :
   (c = CUnknown -> gateway token ip c q id authz reply = Terminated NotProxied (mkTerm 503 ["60"] true)) /\
-  (c <> CUnknown -> is_upgrade_request (q_headers q) = false -> asks (q_headers q) = true ->
+  (c <> CUnknown -> asks (q_headers q) = true ->
    forallb authz (asked_items (q_headers q)) = false ->
    gateway token ip c q id authz reply = Terminated ImpersonationRefused (mkTerm 403 [] true)) /\
-  (forall hc id1, filters (q_headers q) id authz = Pass hc id1 ->
+  (forall hc id1, filters_core (q_headers q) id authz = Pass hc id1 ->
      (c = CLimited -> gateway token ip c q id authz reply =
                       Terminated (RateLimited (q_events q)) (mkTerm 429 (if q_events q then [] else ["1"]) true)) /\
      (c = CNoEndpoint -> gateway token ip c q id authz reply = Terminated NoReadyEndpoint (mkTerm 503 ["60"] true)) /\
@@ -747,7 +751,7 @@ Theorem terminated_not_forwarded token ip c q id authz reply :
 Proof.
   split; [|split; [|split]].
   - intros ->. reflexivity.
-  - intros Hc Hu Ha Hz. unfold gateway. rewrite filters_spec, Hu, Ha, Hz. destruct c; [congruence|reflexivity..].
+  - intros Hc Ha Hz. unfold gateway. rewrite filters_core_spec, Ha, Hz. destruct c; [congruence|reflexivity..].
   - intros hc id1 F. unfold gateway. rewrite F. repeat split; intros ->; try reflexivity.
     destruct (q_events q); reflexivity.
   - intros rs t H. rewrite H. split; [reflexivity|].
@@ -755,9 +759,123 @@ Proof.
     assert (T : t = terminate rs).
     { unfold gateway in H. destruct c;
         try (apply (X _ H));
-        destruct (filters (q_headers q) id authz) as [h1 id1|code|]; try discriminate;
+        destruct (filters_core (q_headers q) id authz) as [h1 id1|code|]; try discriminate;
         try (destruct (Z.eqb code 403); apply (X _ H)); try (apply (X _ H)).
-      destruct (rebuild_target (q_target q)); [|discriminate].
-      destruct (send token ip id1 h1); try discriminate. apply (X _ H). }
+      destruct (is_upgrade_request (q_headers q)).
+      - destruct (upgrade_target (q_target q)); [|discriminate].
+        destruct (upgrade_send ip id1 h1); try discriminate. apply (X _ H).
+      - destruct (rebuild_target (q_target q)); [|discriminate].
+        destruct (send token ip id1 h1); try discriminate. apply (X _ H). }
     split; [exact T|]. subst t. destruct rs as [| |[]| | |]; cbn; intros E; try discriminate; reflexivity.
+Qed.
+
+(* ------------------------------------------------------------------ connection upgrades *)
+Lemma dispatch_cases t u :
+  parse_target t = Some u ->
+  has_prefix (u_path (dispatch_location u)) "/" = true /\
+  (u_rawpath (dispatch_location u) = "" \/
+   (escaped_path (u_path (dispatch_location u)) (u_rawpath (dispatch_location u)) = u_rawpath (dispatch_location u) /\
+    has_prefix (u_rawpath (dispatch_location u)) "/" = true)).
+Proof.
+  unfold parse_target. destruct (has_ctl t); [discriminate|].
+  set (p := fst (cut "?" t)). set (q := snd (cut "?" t)).
+  destruct (has_prefix p "/") eqn:Hroot; [|discriminate]. cbn [negb].
+  destruct (unescape false p) as [path|] eqn:Hun; [|discriminate].
+  intros H. inversion H; subst u; clear H.
+  destruct (reencode_spec p path Hun) as [ds [Hne [Hseg [Hpath Hre]]]].
+  destruct (rooted_segments p ds Hroot Hseg) as [ds' [Hds Hne']].
+  assert (Hproot : has_prefix path "/" = true).
+  { rewrite Hpath, Hds, rooted_join by exact Hne'. apply has_prefix_app. }
+  assert (Hrroot : has_prefix (reenc ds) "/" = true).
+  { unfold reenc. rewrite Hds. cbn [map]. change (seg_escape "") with "".
+    rewrite rooted_join; [apply has_prefix_app|]. destruct ds'; [congruence|discriminate]. }
+  unfold dispatch_location. cbn [u_path u_rawpath u_query]. split; [exact Hproot|].
+  destruct (String.eqb_spec p (path_escape path)) as [Hdef|Hraw].
+  - left. reflexivity.
+  - destruct (String.eqb_spec p "") as [E|_]; [exfalso; exact (rooted_nonempty _ Hroot E)|]. cbn [negb andb].
+    destruct (String.eqb_spec (escaped_path path p) p) as [Hv|Hinv]; cbn [negb]; right.
+    + split; assumption.
+    + rewrite Hre. split; [|exact Hrroot].
+      destruct (String.eqb_spec (reenc ds) "") as [E|Hnz]; [exfalso; exact (rooted_nonempty _ Hrroot E)|].
+      rewrite Hpath. apply (escaped_path_reenc ds Hne Hnz).
+Qed.
+
+(* without the Director in between, the request line is the same *)
+Lemma upgrade_target_eq t : upgrade_target t = rebuild_target t.
+Proof.
+  unfold upgrade_target, rebuild_target. destruct (parse_target t) as [u|] eqn:P; [|reflexivity]. f_equal.
+  destruct (dispatch_cases t u P) as [Hroot [Hr|[Hidem Hrr]]];
+    set (v := dispatch_location u) in *; unfold request_uri, director_path.
+  - rewrite Hr. cbn [String.eqb]. rewrite Hroot. cbn [u_path u_rawpath u_query]. reflexivity.
+  - destruct (String.eqb_spec (u_rawpath v) "") as [E|_]; [rewrite E in Hrr; discriminate|].
+    rewrite Hidem, Hrr. cbn [u_path u_rawpath u_query]. rewrite Hidem. reflexivity.
+Qed.
+
+Lemma upgraded_inv token ip c q id authz reply up :
+  gateway token ip c q id authz reply = Upgraded up ->
+  exists id1 uri h2,
+    c = COk /\ is_upgrade_request (q_headers q) = true /\
+    filters_core (q_headers q) id authz = Pass (clear_imp (h_del H_AUTH (q_headers q))) id1 /\
+    rebuild_target (q_target q) = Some uri /\
+    upgrade_send ip id1 (clear_imp (h_del H_AUTH (q_headers q))) = Forwarded h2 /\
+    up = mkUp (q_method q) uri (q_host q) h2 (q_body q).
+Proof.
+  unfold gateway, term. destruct c; try discriminate;
+    destruct (filters_core (q_headers q) id authz) as [h1 id1|code|] eqn:F; try discriminate;
+    try (destruct (Z.eqb code 403); discriminate).
+  pose proof (filters_pass_hc _ _ _ _ _ F) as Hh. subst h1.
+  destruct (is_upgrade_request (q_headers q)) eqn:U.
+  - rewrite upgrade_target_eq. destruct (rebuild_target (q_target q)) as [uri|]; [|discriminate].
+    destruct (upgrade_send ip id1 (clear_imp (h_del H_AUTH (q_headers q)))) as [h2|code|] eqn:S; try discriminate.
+    intros H. inversion H; subst up; clear H. exists id1, uri, h2. repeat split; auto.
+  - destruct (rebuild_target (q_target q)); [|discriminate].
+    destruct (send token ip id1 (clear_imp (h_del H_AUTH (q_headers q)))); discriminate.
+Qed.
+
+Lemma request_write_values k h :
+  String.eqb k "User-Agent" = false -> h_values k (request_write_headers h) = h_values k h.
+Proof.
+  intros Hk. unfold request_write_headers. destruct (h_has "User-Agent" h).
+  - destruct (String.eqb (h_get "User-Agent" h) ""); [apply hv_del_other|apply hv_set_other]; exact Hk.
+  - apply hv_set_other. exact Hk.
+Qed.
+
+(* a connection upgrade reaches the upstream with the same method, body, Host, path segments and query
+   multimap, and with every client header other than the gateway-owned ones unchanged (Connection, Upgrade and
+   the other hop-by-hop headers included: they are forwarded on this path by design) *)
+Theorem upgrade_forwarded token ip c q id authz reply up :
+  gateway token ip c q id authz reply = Upgraded up ->
+  p_method up = q_method q /\ p_body up = q_body q /\ p_host up = q_host q /\
+  segments (path_of (p_uri up)) = segments (path_of (q_target q)) /\ segments (path_of (q_target q)) <> None /\
+  (forall k, values_of k (parse_query (query_of (p_uri up))) = values_of k (parse_query (query_of (q_target q)))) /\
+  (from_server (q_headers q) ->
+   forall k, upgrade_owned k = false -> h_values k (p_headers up) = map trim_ows (h_values k (q_headers q))).
+Proof.
+  intros H. destruct (upgraded_inv _ _ _ _ _ _ _ _ H) as [id1 [uri [h2 [_ [_ [_ [Hu [Hs ->]]]]]]]].
+  cbn [p_method p_body p_host p_uri p_headers].
+  destruct (path_segments_preserved _ _ Hu) as [Hseg Hnn].
+  repeat split; try assumption.
+  - apply (query_multimap_preserved _ _ Hu).
+  - intros Hfs k Hk. unfold upgrade_owned in Hk.
+    apply Bool.orb_false_iff in Hk. destruct Hk as [Hk _].
+    apply Bool.orb_false_iff in Hk. destruct Hk as [Hk Hxu].
+    apply Bool.orb_false_iff in Hk. destruct Hk as [Ha Hi].
+    unfold str_in in Hxu. cbn [existsb] in Hxu.
+    apply Bool.orb_false_iff in Hxu. destruct Hxu as [Hx Hxu]. apply Bool.orb_false_iff in Hxu. destruct Hxu as [Hua _].
+    set (hc := clear_imp (h_del H_AUTH (q_headers q))) in *.
+    assert (Hc : clean hc) by apply clean_clear.
+    unfold upgrade_send in Hs.
+    set (hb := request_write_headers (upgrade_headers ip hc)) in *.
+    assert (Hcb : clean hb).
+    { apply clean_request_write. unfold upgrade_headers. apply clean_set; [reflexivity|exact Hc]. }
+    assert (Hub : h_values H_USER hb = []) by (apply (clean_values H_USER hb Hcb eq_refl)).
+    destruct (String.eqb_spec (uname id1) "") as [E|Hn].
+    { unfold wrap_request, h_get in Hs. rewrite Hub, E in Hs. discriminate. }
+    rewrite (wrap_shape id1 hb Hub Hn) in Hs. inversion Hs; subst h2; clear Hs.
+    rewrite hv_wire, hv_app, (allimp_values k _ (allimp_generated id1) Hi), app_nil_r. f_equal.
+    assert (Hku : String.eqb k H_USER = false).
+    { destruct (String.eqb_spec k H_USER) as [E|]; [|reflexivity]. rewrite E in Hi. discriminate. }
+    rewrite hv_del_other by exact Hku. unfold hb. rewrite request_write_values by exact Hua.
+    unfold upgrade_headers. rewrite hv_set_other by exact Hx.
+    unfold hc. apply hv_clear; assumption.
 Qed.
